@@ -1,11 +1,11 @@
 /-
   C03 — *source programs*.  A deep embedding of the small Python subset in which the bodies of
-  `Stream.take / copy / peek / skip / limit / append / map / filter`, `StreamTeeHub.take / copy / __iter__`
-  and the `StreamTeeHub` overrides are written, and the interpreter that gives a program its meaning in
+  `Stream.take / copy / peek / skip / limit / append / map / filter`, `StreamTeeHub.__init__ / take / copy / __iter__`,
+  the `StreamTeeHub` overrides, `thub` and `lazy_itertools.tee` are written, and the interpreter that gives a program its meaning in
   the vocabulary of the history model (Model/C03.lean: `It` terms, `teeOf`, `takeWith`, `target`, `rebind`).
 
   The programs themselves are NOT written here: `lean/ALV/Gen/C03Src.lean` is regenerated from
-  `audiolazy/lazy_stream.py` by `harness/props/c03_tr.py` on every run of the check, and
+  `audiolazy/lazy_stream.py` (and `lazy_itertools.py`) by `harness/props/c03_tr.py` on every run of the check, and
   `Props/C03.lean` proves `src_*_is_model`: the interpretation of the regenerated program of each method is the
   hand-written model function of that method (`stepP Gen.progs = step`).
 
@@ -112,6 +112,19 @@ inductive HIStmt where
   | setIters (src n : String)           -- `self._iters = list(it.tee(src, n))`
   deriving Repr, DecidableEq
 
+/-- what `lazy_itertools.tee(data, n)` hands back in one arm (generator variables normalised away) -/
+inductive TeeRet where
+  | streamsOfTee (src n : String)       -- `tuple(Stream(cp) for cp in it.tee(src, n))`
+  | repeatOf (x n : String)             -- `tuple(x for unused in xrange(n))`
+  deriving Repr, DecidableEq
+
+/-- `lazy_itertools.tee`: `if isinstance(<test.1>, <test.2>): return <thenR>  else: return <elseR>` -/
+structure TeeBody where
+  test : String × List String
+  thenR : TeeRet
+  elseR : TeeRet
+  deriving Repr, DecidableEq
+
 /-- the regenerated programs -/
 structure Progs where
   take : Body
@@ -132,6 +145,7 @@ structure Progs where
   hubFilter : HubBody
   thub : ThubBody
   hubInit : List HIStmt
+  tee : TeeBody
   deriving Repr, DecidableEq
 
 /-! ### meaning of counts -/
@@ -480,6 +494,24 @@ def thubP (P : Progs) (st : St α) (s : Src α) (n : Nat) : Option (St α × Obs
     | .mkHub args => if args == ["data", "n"] then hubInitP P.hubInit st s n else some (st, .err "unmodelled")
   else some (st, .err "unmodelled")
 
+/-- `lazy_itertools.tee(x_i, n)` on an object of the pool as its program says.  Every object of the pool is a Stream
+    or a StreamTeeHub (a subclass), so `isinstance(data, K)` holds exactly when `Stream` is among `K`;
+    `it.tee(data, n)` asks `iter(data)` (`mkSrc` on the object: a Stream is moved, a hub gives a use) and its `n`
+    outputs are `teeOf`; `Stream(cp)` of each is a new Stream of the pool. -/
+def teeP (P : Progs) (st : St α) (i n : Nat) : Option (St α × Obs α) :=
+  if P.tee.test.1 == "data" then
+    match (if P.tee.test.2.contains "Stream" then P.tee.thenR else P.tee.elseR) with
+    | .streamsOfTee src k =>
+      if src == "data" && k == "n" then
+        match mkSrc st (.obj i) with
+        | .error e => some (st, .err e)
+        | .ok (st', it) =>
+          let ht := teeOf st'.heap it
+          some (⟨ht.1, st'.pool ++ List.replicate n (.stream ht.2)⟩, .news ((List.range n).map (· + st'.pool.length)))
+      else some (st, .err "unmodelled")
+    | .repeatOf _ _ => some (st, .err "unmodelled")           -- n times the same object: not an operation of the model
+  else some (st, .err "unmodelled")
+
 def stepP (P : Progs) (f : Nat) (st : St α) : Op α → Option (St α × Obs α)
   | .take i c =>
     match st.pool[i]? with
@@ -528,7 +560,8 @@ def stepP (P : Progs) (f : Nat) (st : St α) : Op α → Option (St α × Obs α
     | some (.hub []) => some (st, .err (popErrP P.hubIter))
     | _ => some (st, .err "noobj")
   | .thub s n => thubP P st s n
-  -- the constructor, `next(iter(x))`, `list(x)`, `tee`: not under the translator
+  | .tee i n => teeP P st i n
+  -- the constructor, `next(iter(x))`, `list(x)`: not under the translator
   | op => step f st op
 
 /-- a whole history run by the programs (the `run` of the history model with `stepP P` for `step`) -/
@@ -562,7 +595,8 @@ def sigModel : List (String × List (String × Option String)) := [
   ("StreamTeeHub.map", [("self", none), ("func", none)]),
   ("StreamTeeHub.filter", [("self", none), ("func", none)]),
   ("StreamTeeHub.__init__", [("self", none), ("data", none), ("n", none)]),
-  ("thub", [("data", none), ("n", none)])]
+  ("thub", [("data", none), ("n", none)]),
+  ("lazy_itertools.tee", [("data", none), ("n", some "2")])]
 
 /-- the default of parameter `p` of `q`: `none` = no such parameter, `some none` = required -/
 def sigDefault (sigs : List (String × List (String × Option String))) (q p : String) : Option (Option String) :=
